@@ -225,22 +225,26 @@ class InitFlow:
         if b is None:
             return a
         out = []
+
+        def le(p, q):
+            """p <= q for linear forms whose atoms are unsigned quantities"""
+            d = lf_add(q, p, -1)
+            return d[0] >= 0 and all(k >= 0 for (_, k) in d[1])
         for x in a:
             for y in b:
                 if x == y:
                     out.append(x)
-                elif all(lf_is_const(t) for t in (x[0], x[1], y[0], y[1])):
-                    lo, hi = max(x[0][0], y[0][0]), min(x[1][0], y[1][0])
-                    if lo < hi:
-                        out.append((lf_const(lo), lf_const(hi)))
-                elif x[0] == y[0]:
-                    d = lf_add(x[1], y[1], -1)
-                    if lf_is_const(d):
-                        out.append(x if d[0] <= 0 else y)
-                elif x[1] == y[1]:
-                    d = lf_add(x[0], y[0], -1)
-                    if lf_is_const(d):
-                        out.append(x if d[0] >= 0 else y)
+                    continue
+                # intersection [max lo, min hi) when the end points are comparable
+                lo = x[0] if le(y[0], x[0]) else (y[0] if le(x[0], y[0]) else None)
+                hi = x[1] if le(x[1], y[1]) else (y[1] if le(y[1], x[1]) else None)
+                if lo is None or hi is None:
+                    continue
+                if lf_is_const(lo) and lf_is_const(hi):
+                    if lo[0] < hi[0]:
+                        out.append((lo, hi))
+                elif le(lo, hi) and lo != hi:
+                    out.append((lo, hi))
         return InitFlow.norm(out)
 
     # ------------------------------------------------------------ loop fills
@@ -488,6 +492,7 @@ class InitFlow:
                     if out_edge.get((b, succ)) != e:
                         out_edge[(b, succ)] = e
                         changed = True
+        self.IN_states, self.out_edges = IN, out_edge
         self.reads = []
         for b in rpo:
             if IN[b] is None:
